@@ -29,6 +29,14 @@ inductive Just (w : World) (entries : List Nat) : Task → Prop
       findImport (w.mod m) l = some p → Just w entries (.reqName p.2.1 p.2.2)
   | declRef {m name r : Nat} {d : Decl} : Just w entries (.decl m name) → findDecl (w.mod m) name = some d →
       r ∈ d.refs → Just w entries (.local m r)
+  | declQRef {m name : Nat} {q : Nat × Nat} {d : Decl} : Just w entries (.decl m name) →
+      findDecl (w.mod m) name = some d → q ∈ d.qrefs → Just w entries (.qual m q.1 q.2)
+  | localNs {m l : Nat} {p : Nat × Nat} : Just w entries (.local m l) → findDecl (w.mod m) l = none →
+      findImport (w.mod m) l = none → findNsImport (w.mod m) l = some p → Just w entries (.reqAll p.2 false)
+  | qualNs {m l x : Nat} {p : Nat × Nat} : Just w entries (.qual m l x) → findNsImport (w.mod m) l = some p →
+      Just w entries (.reqName p.2 x)
+  | qualLocal {m l x : Nat} : Just w entries (.qual m l x) → findNsImport (w.mod m) l = none →
+      Just w entries (.local m l)
 
 /-- every task, processed or waiting, is justified; retained declarations were processed -/
 structure Inv2 (w : World) (entries : List Nat) (s : State) : Prop where
@@ -154,7 +162,47 @@ theorem inv2_step (w : World) (entries : List Nat) (s : State) (t : Task) (rest 
             rcases hu with hu | rfl
             · exact Or.inl hu
             · exact Or.inr (Just.localImport ht hd hp))
-        · exact key _ rfl rfl (fun u hu => Or.inl hu)
+        · rename_i hp
+          split
+          · rename_i q hq
+            exact key _ rfl rfl (fun u hu => by
+              simp only [List.mem_append, List.mem_singleton] at hu
+              rcases hu with hu | rfl
+              · exact Or.inl hu
+              · exact Or.inr (Just.localNs ht hd hp hq))
+          · exact key _ rfl rfl (fun u hu => Or.inl hu)
+    | qual m l x =>
+      have key : ∀ (s' : State), s'.done = s.done ++ [Task.qual m l x] → s'.decls = s.decls →
+          (∀ u ∈ s'.work, u ∈ rest ∨ Just w entries u) → Inv2 w entries s' := by
+        intro s' hd hdc hwk
+        refine ⟨?_, ?_⟩
+        · intro u hu
+          rcases hu with hu | hu
+          · rw [hd] at hu
+            simp only [List.mem_append, List.mem_singleton] at hu
+            rcases hu with hu | rfl
+            · exact hdone u hu
+            · exact ht
+          · exact (hwk u hu).elim (hrest u) id
+        · intro x hx
+          rw [hdc] at hx
+          have := hi.declsDone x hx
+          exact ⟨by rw [hd]; simp [this.1], this.2⟩
+      unfold stepQual
+      simp only
+      split
+      · rename_i p hp
+        exact key _ rfl rfl (fun u hu => by
+          simp only [List.mem_append, List.mem_singleton] at hu
+          rcases hu with hu | rfl
+          · exact Or.inl hu
+          · exact Or.inr (Just.qualNs ht hp))
+      · rename_i hp
+        exact key _ rfl rfl (fun u hu => by
+          simp only [List.mem_append, List.mem_singleton] at hu
+          rcases hu with hu | rfl
+          · exact Or.inl hu
+          · exact Or.inr (Just.qualLocal ht hp))
     | decl m name =>
       unfold stepDecl
       simp only
@@ -163,11 +211,12 @@ theorem inv2_step (w : World) (entries : List Nat) (s : State) (t : Task) (rest 
         refine ⟨?_, ?_⟩
         · intro u hu
           simp only [Sched, List.mem_append, List.mem_singleton, List.mem_map] at hu
-          rcases hu with (hu | rfl) | (hu | ⟨r, hr, rfl⟩)
+          rcases hu with (hu | rfl) | ((hu | ⟨r, hr, rfl⟩) | ⟨q, hq, rfl⟩)
           · exact hdone u hu
           · exact ht
           · exact hrest u hu
           · exact Just.declRef ht hd hr
+          · exact Just.declQRef ht hd hq
         · intro x hx
           simp only at hx
           rw [mem_ins_iff] at hx
